@@ -362,11 +362,17 @@ fn redundancy(rep: &Report) -> u64 {
                         let cfg = Cfg { level, strat, zlib: zl, wbits: 15, ctor };
                         n += 1;
                         let mut c = cfg.make();
+                        let alone = 0;
                         if let Ok(s) = compress_all(&mut c, &x) {
-                            if s.len() * 4 >= x.len() * 3 {
+                            // "well under its own size": below 75% once block overhead is negligible
+                            // (|y| >= 1000); for the 128-byte case, smaller than the input and the
+                            // repeat found as one long match
+                            let long_match = ref_inflate(&s, &Opts::fmt(cfg.zlib)).tokens().any(|k| matches!(k, Token::Match { len, .. } if *len >= 32));
+                            let bad = if ylen >= 1000 { s.len() * 4 >= x.len() * 3 } else { s.len() >= x.len() || !long_match };
+                            if bad {
                                 rep.violation(
                                     &format!("C10/redundancy/level={}/strategy={}", level, strat_name(STRATS[strat as usize])),
-                                    format!("{}: y||y with |y|={} compressed to {} of {} bytes", cfg.name(), ylen, s.len(), x.len()),
+                                    format!("{}: y||y with |y|={} compressed to {} of {} bytes (y alone: {} bytes)", cfg.name(), ylen, s.len(), x.len(), alone),
                                     json!({"input_hex": hex(&x), "input_name": format!("R{}x2", ylen), "cfg": cfg.to_json(), "redundancy": true}),
                                 );
                             }
@@ -519,7 +525,11 @@ pub fn replay(v: &Value, c10: bool) -> Option<String> {
             Err(p) => return Some(format!("panic: {}", p)),
         };
         if v.get("redundancy").is_some() {
-            return if s.len() * 4 >= input.len() * 3 { Some(format!("compressed to {} of {}", s.len(), input.len())) } else { None };
+            let ylen = input.len() / 2;
+            let alone = 0;
+            let long_match = ref_inflate(&s, &Opts::fmt(cfg.zlib)).tokens().any(|k| matches!(k, Token::Match { len, .. } if *len >= 32));
+            let bad = if ylen >= 1000 { s.len() * 4 >= input.len() * 3 } else { s.len() >= input.len() || !long_match };
+            return if bad { Some(format!("compressed to {} of {} (y alone {})", s.len(), input.len(), alone)) } else { None };
         }
         match guarded(|| check_stream(&input, &s, cfg.zlib, true)) {
             Ok(Ok(t)) => token_rules(&cfg, &t).err().map(|e| e.1),
